@@ -34,6 +34,7 @@ type link interface {
 	raw(b []byte) error
 	close()
 	reset()
+	closeRead()
 }
 
 type Peer struct {
@@ -124,6 +125,14 @@ func (p *Peer) Reset() {
 	}
 }
 
+// CloseRead shuts down the receiving side of the current connection and keeps the connection open (stream
+// sockets only): on a unix socket the sender's next write fails while its reads just see nothing.
+func (p *Peer) CloseRead() {
+	if l := p.link(); l != nil {
+		l.closeRead()
+	}
+}
+
 // Recv waits for the next request frame.
 func (p *Peer) Recv(timeout time.Duration) (Frame, error) {
 	select {
@@ -168,8 +177,16 @@ func (p *Peer) push(f Frame) {
 // ---- stream sockets
 
 type streamLink struct {
-	c  net.Conn
-	mu sync.Mutex
+	c        net.Conn
+	mu       sync.Mutex
+	keepOpen int32
+}
+
+func (l *streamLink) closeRead() {
+	atomic.StoreInt32(&l.keepOpen, 1)
+	if c, ok := l.c.(interface{ CloseRead() error }); ok {
+		c.CloseRead()
+	}
 }
 
 func (l *streamLink) send(f Frame) error { return l.raw(wire.SocketFrame(f.Index, f.Body, f.Err)) }
@@ -196,7 +213,11 @@ func (p *Peer) serveStream(ln net.Listener) {
 		l := &streamLink{c: c}
 		n := p.setCur(l)
 		go func() {
-			defer c.Close()
+			defer func() {
+				if atomic.LoadInt32(&l.keepOpen) == 0 {
+					c.Close()
+				}
+			}()
 			for {
 				p.waitWhilePaused()
 				h := make([]byte, 12)
@@ -229,8 +250,9 @@ func (l *udpLink) raw(b []byte) error {
 	_, err := l.c.WriteToUDP(b, l.addr)
 	return err
 }
-func (l *udpLink) close() {}
-func (l *udpLink) reset() {}
+func (l *udpLink) close()     {}
+func (l *udpLink) reset()     {}
+func (l *udpLink) closeRead() {}
 
 func (p *Peer) serveUDP(c *net.UDPConn) {
 	buf := make([]byte, 65536)
@@ -275,7 +297,8 @@ func (l *wsLink) text(b []byte) error {
 	defer l.mu.Unlock()
 	return l.c.WriteMessage(websocket.TextMessage, b)
 }
-func (l *wsLink) close() { l.c.Close() }
+func (l *wsLink) close()     { l.c.Close() }
+func (l *wsLink) closeRead() {}
 func (l *wsLink) reset() {
 	if t, ok := l.c.UnderlyingConn().(*net.TCPConn); ok {
 		t.SetLinger(0)
